@@ -41,6 +41,8 @@ type c06Case struct {
 	// is on the wire (the send token is still held, nothing is stamped yet).
 	LateFor time.Duration
 	LateIdx int
+	// SlowUnicast: every write to a unicast destination takes this long.
+	SlowUnicast time.Duration
 	// Fail: the FailIdx-th multicast write (0 = the initial RA) fails with an
 	// error of kind FailKind (a full transmit queue, as the socket reports it).
 	FailKind string
@@ -298,6 +300,16 @@ func c06Run(t *testing.T, r *vlib.Run, c *c06Case) {
 				}
 			}
 		}
+		if c.SlowUnicast > 0 {
+			h.connSetup = func(cn *vfake.Conn) {
+				cn.WriteLatencyOf = func(_ int, dst netip.Addr) time.Duration {
+					if dst.IsMulticast() {
+						return 0
+					}
+					return c.SlowUnicast
+				}
+			}
+		}
 		if c.LateFor > 0 {
 			h.connSetup = func(cn *vfake.Conn) {
 				k := 0
@@ -410,6 +422,12 @@ func c06Run(t *testing.T, r *vlib.Run, c *c06Case) {
 	if c.LateFor > 0 {
 		c06StallCheck(r, c, ev) // spacing of the packets on the wire
 		c06LateCheck(r, c, ev)
+		r.Nontrivial(c.ID)
+		return
+	}
+	if c.SlowUnicast > 0 {
+		c06StallCheck(r, c, ev)
+		c06LateCheck(r, c, ev) // LateFor = 0: within MIN_DELAY_BETWEEN_RAS of the trigger
 		r.Nontrivial(c.ID)
 		return
 	}
@@ -550,6 +568,7 @@ func TestVerifC06(t *testing.T) {
 	if r.Part == "det" {
 		c06StallFamily(r, run)
 		c06LateFamily(r, run)
+		c06SlowUnicastFamily(r, run)
 	}
 
 	// Random long bursty histories, both tick regimes, with and without a
@@ -633,6 +652,19 @@ func c06LateFamily(r *vlib.Run, run func(c *c06Case)) {
 	}
 }
 
+// c06SlowUnicastFamily: the answer to a unicast solicitation takes seconds to
+// leave (a neighbour that does not resolve, a full queue towards one host);
+// a solicitation from :: arrives meanwhile.  Its multicast answer is due at once
+// (the last multicast RA is long ago) and has nothing to do with that host.
+func c06SlowUnicastFamily(r *vlib.Run, run func(c *c06Case)) {
+	for li, lat := range []time.Duration{4 * time.Second, 7 * time.Second} {
+		for oi, off := range []time.Duration{600 * vMs, 1500 * vMs, 3 * time.Second} {
+			run(&c06Case{ID: fmt.Sprintf("slowunicast/%d/%d", li, oi), Min: 22 * time.Second, Max: 30 * time.Second, SlowUnicast: lat,
+				Evs: []c06Ev{{At: 8 * time.Second, Unicast: true}, {At: 8*time.Second + off}}, Seed: time.Duration(li*5 + oi)})
+		}
+	}
+}
+
 // c06LateCheck: every solicitation from :: is followed by a multicast RA on
 // the wire within MIN_DELAY_BETWEEN_RAS of the moment the late call returned
 // (the spacing is counted from there), i.e. within 3 s + the return latency.
@@ -649,21 +681,32 @@ func c06LateCheck(r *vlib.Run, c *c06Case, ev []vfake.Event) {
 			late = true
 		}
 	}
-	if !late {
+	if !late && c.LateFor > 0 {
 		r.Count("late_return_not_reached", 1)
 		return
 	}
-	for _, e := range ev {
+	for i, e := range ev {
 		if e.Kind != "read_deliver" || e.Src != "::" {
 			continue
 		}
+		// a multicast RA on the wire AFTER the solicitation was read (later in the
+		// trace; the same virtual instant is fine) and in time
 		ok := false
-		for _, w := range wires {
-			if w > e.T && w <= e.T+vMinDelay+c.LateFor {
+		for _, x := range ev[i+1:] {
+			if x.Kind == "write_end" && x.Dst == vAllNodes.String() && x.Err == "" && x.T <= e.T+vMinDelay+c.LateFor {
 				ok = true
 			}
 		}
-		r.Count("triggers_after_a_transmission_still_returning", 1)
+		if c.SlowUnicast > 0 {
+			r.Count("triggers_during_a_slow_unicast_transmission", 1)
+		} else {
+			r.Count("triggers_after_a_transmission_still_returning", 1)
+		}
+		if !ok && c.SlowUnicast > 0 {
+			r.Violation(c.ID, "trigger-unsatisfied", fmt.Sprintf("solicitation from :: at %v (while a unicast RA was being transmitted for %v) was not followed by a multicast RA within 3s", e.T, c.SlowUnicast),
+				map[string]any{"case": c, "multicast_on_wire": fmt.Sprint(wires), "trace": vfake.Strings(vOnly(ev, "write_begin", "write_end", "read_deliver", "cancel"), 60)})
+			return
+		}
 		if !ok {
 			r.Violation(c.ID, "trigger-unsatisfied", fmt.Sprintf("solicitation from :: at %v (after a multicast RA was on the wire, while its system call was still returning for %v) was not followed by a multicast RA within 3s + %v", e.T, c.LateFor, c.LateFor),
 				map[string]any{"case": c, "multicast_on_wire": fmt.Sprint(wires), "trace": vfake.Strings(vOnly(ev, "write_begin", "write_end", "late_return", "read_deliver", "cancel"), 60)})
